@@ -22,7 +22,7 @@ class C07(Check):
             "extend/split, single-dimension splitting, boundary, margin, box) + benefit answers per area (keyed draws with zeros/ties); "
             "1-5 evaluations of the real adaptive loop; after every refinement step and evaluation: tiling, coarsening >= 0, unique point "
             "assignment for seeded points (interior, faces, corners, domain boundary), per-leaf coefficient sums over the computed component "
-            "grids, local reproduction of an arbitrary function. A state is the set of leaf boxes with coarsening values and lmax; "
+            "grids, local reproduction of an arbitrary function; 15 % of the boundary-on histories are hands-off (no inspection while the run proceeds: the run is given the corners of the initial areas as evaluation points and the interpolation error it reports there must vanish). A state is the set of leaf boxes with coarsening values and lmax; "
             "distinct_nontrivial counts distinct states reached after a refinement step")
     excluded_configs = ["dim 1 (coarsen_grid indexes a second dimension)", "noInitialSplitting=True (asserted unsupported)",
                         "coarsening version 3 (outside the documented versions 0-2)"]
